@@ -197,6 +197,14 @@ func (g *Gateway) handleLegacyProtocol(w http.ResponseWriter, r *http.Request, t
 
 		c.Set(t.RDGId, t, cache.DefaultExpiration)
 	} else if r.Method == MethodRDGIN {
+		if t.transportOut == nil {
+			// the inbound channel is only meaningful for a tunnel whose outbound
+			// channel (RDG_OUT_DATA with the same connection id) exists
+			log.Printf("RDG_IN_DATA for %s without a matching RDG_OUT_DATA", t.RDGId)
+			http.Error(w, "no matching RDG_OUT_DATA channel", http.StatusBadRequest)
+			return
+		}
+
 		legacyConnections.Inc()
 		defer legacyConnections.Dec()
 
